@@ -195,7 +195,7 @@ def run(ctx, rep):
         else:
             tb = thick[0]
             B = cfg.Body(tb)
-            e = symx.local_expr(F, B, 0, 0)
+            e = symx.normalize_calls(F, symx.local_expr(F, B, 0, 0), lambda k: not balance.is_api(F, F.body(k)))  # a private `inner()` accessor is part of the helper
             calls = []
             _collect(e, calls)
             sl = [c for c in calls if c[2] in ("slice_from_raw_parts_mut", "slice_from_raw_parts")]
@@ -220,8 +220,11 @@ def run(ctx, rep):
             g = cfg.call_graph(F)
             for h, name, tr in (("ThinArc", "deref", "Deref"), ("ThinArc", "with_arc", None), ("ThinArc", "with_arc_mut", None), ("ThinArc", "clone", "Clone"), ("ThinArc", "drop", "Drop"), ("Arc", "protected_from_thin", None)):
                 for b in F.method(h, name, tr):
+                    fat = any(F.mentions_adt(lc["ty"], PROT) and (F.handle_name(F.strip_refs(lc["ty"])) == "Arc" or F.ty(F.strip_refs(lc["ty"]))["k"] == "ptr") for lc in b["locals"])
                     if tb["key"] in cfg.reachable_from(g, [b["key"]]):
                         rep.ok("R-THICK", b["key"] + " uses the helper", cfg=tag)
+                    elif not fat:
+                        rep.ok("R-THICK", b["key"] + " uses the helper", "works on the thin pointer alone (no fat pointer or fat Arc in its body)", cfg=tag)
                     else:
                         rep.bad("R-THICK", b["key"] + " uses the helper", "%s does not obtain its fat pointer from the length-reading helper" % b["key"], F.loc(b), tag)
         # ------------------------------------------------------------ identity of conversions (same allocation, count untouched)
